@@ -80,8 +80,8 @@ theorem mkcalendar_needs_w (cfg : Cfg) (rights : Rights) (user : String) (s : St
   all_goals simp_all
 
 /-- DELETE that removes something passed `Access.check("w", target)` -/
-theorem delete_needs_w (cfg : Cfg) (rights : Rights) (user : String) (s : Store) (p im) (u : Update) :
-    (deleteU cfg rights user s p im).2 = some u →
+theorem delete_needs_w (cfg : Cfg) (rights : Rights) (user : String) (s : Store) (p im imc) (u : Update) :
+    (deleteU cfg rights user s p im imc).2 = some u →
       check rights user p 'w' (subjectOf (resolve s p)) = true := by
   unfold deleteU; simp only []; repeat' split
   all_goals simp_all [subjectOf]
